@@ -74,3 +74,13 @@ package pathbadger
 //@   loop 1 invariant existingNode != nil && intNode != nil
 //@   loop 1 invariant PtrSep(existingNode, intNode) ==> (idx() >= 1 ==> PtrMerged(existingNode.Left, intNode.Left)) && (idx() >= 2 ==> PtrMerged(existingNode.Right, intNode.Right)) && (idx() >= 3 ==> PtrMerged(existingNode.LeafNode, intNode.LeafNode))
 //@   note when a chunk brings an internal node that the restore has already stored (the nodes on the boundary between two chunks), EVERY child pointer (left, right and leaf) whose subtree was imported earlier keeps the earlier import's database-internal position: none of the three is skipped because another one is absent. A pointer that loses it is written back as "not yet imported" and the restored tree is not readable there
+
+// ---- starting a multipart (checkpoint) restore (C12): a running session is never re-initialised ----
+
+//@ func badgerNodeDB.StartMultipartInsert
+//@   props C12
+//@   requires d != nil
+//@   ensures old(d.multipartVersion) != multipartVersionNone ==> d.multipartVersion == old(d.multipartVersion) && sameRef(d.multipartMeta, old(d.multipartMeta))
+//@   ensures old(d.multipartVersion) != multipartVersionNone && old(d.multipartVersion) != version ==> err != nil
+//@   precall pathbadger\.metadata\)\.(reserveRootSeqNo|setMultipart)$ :: old(d.multipartVersion) == multipartVersionNone
+//@   note while a multipart restore is in progress, another StartMultipartInsert - for the same version (the further checkpoints of a round, retries) or for a different one (refused) - leaves the session as it is: no new sequence numbers are reserved, the per-type node-index counters and the session metadata are not replaced. Re-initialising sends the remaining chunks to another key space; Finalize then keeps only part of the restored state (seed C12_g; compare known finding F8 for the abort-and-restart sequence, which does re-initialise legitimately and loses state)
